@@ -377,6 +377,12 @@ func runC05(c *Ctx, r *Rec) {
 		r.ok("D1-stable-rendezvous", construct, c.pos(qr.chanF.Pos()), "the channel field is never written after construction")
 	}
 
+	// ---- D4 a lock that is not released blocks every later call for ever
+	for _, name := range sortedKeys(ms) {
+		checkLockPairing(c, r, "D4-lock-released", info, ms[name], ms[name].Body, objKey(qr.mutexF), qr.mutexF.Name())
+	}
+	r.floor("D4-lock-released", 7)
+
 	// ---- D2 no self-fill
 	nsites := 0
 	for _, role := range []string{"collection", "cdcn", "module"} {
